@@ -969,6 +969,11 @@ func (vm *VM) execBuildArray() error {
 	}
 
 	elemCount := int(operand)
+	// The elements must already be on the stack: check before allocating, or
+	// a 30-byte file with operand 0xFFFFFFFF asks for a 64 GiB slice.
+	if elemCount > len(vm.stack) {
+		return fmt.Errorf("stack underflow: BUILD_ARRAY needs %d values, stack has %d", elemCount, len(vm.stack))
+	}
 	arr := make([]Value, elemCount)
 
 	// Pop in reverse order
@@ -1279,6 +1284,11 @@ func (vm *VM) execCall() error {
 	}
 
 	argCount := int(operand)
+	// Arguments and the function name must already be on the stack: check
+	// before allocating (see execBuildArray).
+	if argCount >= len(vm.stack) {
+		return fmt.Errorf("stack underflow: CALL needs %d arguments and a function name, stack has %d values", argCount, len(vm.stack))
+	}
 
 	// Pop arguments
 	args := make([]Value, argCount)
